@@ -1,151 +1,66 @@
 // Worker for C13: consensus accounting primitives equal their definitions for every input.
+//
+// Every family generates inputs in the harness' own transaction model (verif/ref/refacct), converts them
+// field by field into btcd's types, calls the real btcd function and compares with the definitional
+// reference written from the BIPs / Bitcoin Core.
 package main
 
 import (
-	"crypto/sha256"
-	"encoding/hex"
 	"fmt"
+	"os"
+	"strconv"
+	"time"
 
 	"verif/mon"
-
-	"github.com/btcsuite/btcd/blockchain"
-	"github.com/btcsuite/btcd/btcutil/v2"
-	"github.com/btcsuite/btcd/chainhash/v2"
-	"github.com/btcsuite/btcd/wire/v2"
 )
 
-func dsha(b []byte) [32]byte {
-	a := sha256.Sum256(b)
-	return sha256.Sum256(a[:])
+// tierN is c.N with an optional operator-chosen reduction of the thorough tier (C13_THOROUGH_PCT=1..100, for a
+// busy machine); the reduction is written into the evidence notes. The quick tier is never scaled.
+func tierN(c *mon.Ctx, quick, thorough int64) int64 {
+	if c.Thorough() {
+		if pct, err := strconv.Atoi(os.Getenv("C13_THOROUGH_PCT")); err == nil && pct >= 1 && pct < 100 {
+			return max(quick, thorough*int64(pct)/100)
+		}
+	}
+	return c.N(quick, thorough)
 }
 
-// refMerkle is the definitional merkle root: pair up, duplicating the last on odd levels.
-func refMerkle(leaves [][32]byte) (root [32]byte, levels [][][32]byte) {
-	if len(leaves) == 0 {
-		return root, nil
+// timed prints per-family wall time to stderr when C13_TIMING is set (diagnostics for sizing the tiers by
+// hand; no verdict and no case count depends on it).
+func timed(name string, f func()) {
+	if os.Getenv("C13_TIMING") == "" {
+		f()
+		return
 	}
-	cur := leaves
-	levels = append(levels, cur)
-	for len(cur) > 1 {
-		var next [][32]byte
-		for i := 0; i < len(cur); i += 2 {
-			l, r := cur[i], cur[i]
-			if i+1 < len(cur) {
-				r = cur[i+1]
-			}
-			next = append(next, dsha(append(append([]byte{}, l[:]...), r[:]...)))
-		}
-		cur = next
-		levels = append(levels, cur)
-	}
-	return cur[0], levels
-}
-
-func randTx(r *mon.Rand) *wire.MsgTx {
-	tx := wire.NewMsgTx(int32(r.Intn(3)))
-	nin := 1 + r.Intn(3)
-	wit := r.Chance(1, 2)
-	for i := 0; i < nin; i++ {
-		var h chainhash.Hash
-		r.Fill(h[:])
-		in := wire.NewTxIn(wire.NewOutPoint(&h, r.Uint32()), r.Bytes(r.Intn(20)), nil)
-		if wit {
-			for j := r.Intn(3); j > 0; j-- {
-				in.Witness = append(in.Witness, r.Bytes(r.Intn(40)))
-			}
-		}
-		tx.AddTxIn(in)
-	}
-	for i := 1 + r.Intn(3); i > 0; i-- {
-		tx.AddTxOut(wire.NewTxOut(r.Int63n(21e14), r.Bytes(r.Intn(30))))
-	}
-	tx.LockTime = r.Uint32()
-	return tx
+	t0 := time.Now()
+	f()
+	fmt.Fprintf(os.Stderr, "timing %-20s %8.2fs\n", name, time.Since(t0).Seconds())
 }
 
 func main() {
 	mon.Main("C13", func(c *mon.Ctx) {
-		c.Rule("merkle: random tx lists of 0..N entries (odd counts, duplicated tails), txid and wtxid forms; " +
-			"distinct = (family, leaf count, witness flag, duplicated-tail flag, root)")
-		c.Family("merkle", c.N(3000, 300000), func(k *mon.Case) {
-			r := k.Rand
-			n := 0
-			switch r.Intn(6) {
-			case 0:
-				n = r.Intn(4)
-			case 1:
-				n = 1 << uint(r.Intn(8))
-				n += r.Intn(3) - 1
-			default:
-				n = r.Intn(70)
-			}
-			if n < 0 {
-				n = 0
-			}
-			witness := r.Bool()
-			var txs []*btcutil.Tx
-			for i := 0; i < n; i++ {
-				txs = append(txs, btcutil.NewTx(randTx(r)))
-			}
-			dupTail := false
-			if n >= 2 && r.Chance(1, 5) {
-				txs = append(txs, txs[len(txs)-1])
-				dupTail = true
-				n++
-			}
-			k.Desc(map[string]any{"n": n, "witness": witness, "dupTail": dupTail})
-			leaves := make([][32]byte, n)
-			for i, t := range txs {
-				if witness {
-					if i == 0 {
-						leaves[i] = [32]byte{}
-					} else {
-						leaves[i] = [32]byte(t.MsgTx().WitnessHash())
-					}
-				} else {
-					leaves[i] = [32]byte(t.MsgTx().TxHash())
-				}
-			}
-			want, levels := refMerkle(leaves)
-			got := blockchain.CalcMerkleRoot(txs, witness)
-			if [32]byte(got) != want {
-				k.Failf(fmt.Sprintf("merkle:CalcMerkleRoot:n=%d", min(n, 3)), "CalcMerkleRoot n=%d witness=%v got %x want %x", n, witness, got[:], want[:])
-			}
-			k.Count("merkle.calcroot", 1)
-			store := blockchain.BuildMerkleTreeStore(txs, witness)
-			if n == 0 {
-				k.Eval(mon.Sig("merkle", 0, witness), true)
-				return
-			}
-			last := store[len(store)-1]
-			if last == nil || [32]byte(*last) != want {
-				k.Failf("merkle:BuildMerkleTreeStore:root", "store root mismatch n=%d witness=%v", n, witness)
-			}
-			// every interior node of the store equals the reference level node (store pads each level to a power of two)
-			np := 1
-			for np < n {
-				np <<= 1
-			}
-			off := 0
-			width := np
-			for lv := 0; lv < len(levels); lv++ {
-				for i := 0; i < width; i++ {
-					s := store[off+i]
-					if i < len(levels[lv]) {
-						if s == nil || [32]byte(*s) != levels[lv][i] {
-							k.Failf("merkle:BuildMerkleTreeStore:interior", "store level %d index %d mismatch n=%d", lv, i, n)
-						}
-					} else if s != nil {
-						k.Failf("merkle:BuildMerkleTreeStore:padding", "store level %d index %d should be nil n=%d", lv, i, n)
-					}
-				}
-				off += width
-				width >>= 1
-			}
-			k.Count("merkle.store", 1)
-			k.Eval(mon.Sig("merkle", n, witness, dupTail, hex.EncodeToString(want[:4])), n > 0)
-			k.Sample(map[string]any{"family": "merkle", "n": n, "witness": witness, "root": hex.EncodeToString(want[:])})
-		})
-		c.Require("merkle.calcroot", 100)
+		c.Rule("calibrate.*: reference models vs main-chain blocks, published vectors and the full-block suite's sigop-limit verdicts. " +
+			"merkle: tx lists of 0..N entries (all n in 0..299 exhaustively, powers of two +-1, up to 1100/9000), txid and wtxid forms, duplicated tails; " +
+			"distinct = (n, form, duplicated count, root). commitment: coinbase layouts (0..3 commitment-like outputs of 11 kinds at random positions, 8 nonce shapes, " +
+			"witness/no-witness bodies, post-commitment mutation); distinct = (candidate kinds in order, nonce shape, body, verdict). weight: random txs/blocks at the " +
+			"compact-size boundaries; distinct = (shape, weight). sigops: txs of 1-4 spends of 6 kinds (legacy, P2SH, near-P2SH, native / nested witness, mixed) over a " +
+			"syntactic script generator (pushes 0x01-0x4e carrying sigop bytes, multisig after 12 kinds of predecessor, 10 malformed tails) + exhaustive short scripts; " +
+			"distinct = (spend kinds, cost, tx bytes). bip34: 16 scriptSig shapes x boundary heights; distinct = (shape, prefix, height, verdicts). finality / seqlock.pure: " +
+			"boundary-biased (lock time, sequences, height, time); distinct = the tuple. chain: one real regtest chain per case (ffldb + blockchain.New, 12-51 blocks, varied " +
+			"timestamps, CSV active or not), 24 CalcSequenceLock queries (confirmed and unconfirmed inputs, FetchUtxoView or hand-built views) and 6 probe blocks whose " +
+			"validity hinges on one definition; distinct = (version, input ages and sequences, mode, expected lock).")
+		timed("calibrate", func() { calibrate(c) })
+		timed("famMerkle", func() { famMerkle(c) })
+		timed("famCommit", func() { famCommit(c) })
+		timed("famWeight", func() { famWeight(c) })
+		timed("famSigops", func() { famSigops(c) })
+		timed("famSigopsExhaustive", func() { famSigopsExhaustive(c) })
+		timed("famHeight", func() { famHeight(c) })
+		timed("famLocks", func() { famLocks(c) })
+		timed("famChain", func() { famChain(c) })
+		if c.Thorough() && os.Getenv("C13_THOROUGH_PCT") != "" {
+			c.Note("thorough tier case counts scaled to " + os.Getenv("C13_THOROUGH_PCT") + "% by C13_THOROUGH_PCT")
+		}
+		c.Note("GetSigOpCost with a missing input (outside the domain of Core's GetTransactionSigOpCost, which asserts): see counters sigops.missing_input.*")
 	})
 }
